@@ -43,6 +43,7 @@ func c01(c *core.Check) {
 	c01ErrorNotPanic(c)
 	c01RangeIndexSlices(c)
 	c01FloatLoops(c)
+	c01GrowingPlaceholders(c)
 	c01OrderedSlices(c)
 
 	p := c.Prog
